@@ -112,8 +112,10 @@ class Worker:
         if rc != 0:
             raise SystemExit("cannot create worktree: " + out)
         os.makedirs(self.root)
-        for name in ("check", "lib", "coq", "harness", "corpus", "driver", "known_findings.txt", "properties.jsonl"):
+        for name in ("check", "lib", "coq", "harness", "corpus", "driver", "baseline", "known_findings.txt", "properties.jsonl"):
             s = os.path.join(ROOT, name)
+            if not os.path.exists(s):
+                continue
             # cp -a keeps the mtimes, so `make` in the copy sees an up-to-date build
             subprocess.run(["cp", "-a", s, os.path.join(self.root, name)], check=True)
         os.makedirs(os.path.join(self.root, "build"))
@@ -147,7 +149,9 @@ class Worker:
 
     def check(self, timeout):
         t0 = time.time()
-        env = dict(ENV, VERIF_REPO=self.wt)
+        # VERIF_NO_ESCALATE: without it ./check answers a clean quick pass on a changed anchored file with a thorough-size
+        # generation run (4 minutes); the sweep measures the plain quick pass
+        env = dict(ENV, VERIF_REPO=self.wt, VERIF_NO_ESCALATE="1")
         env.pop("VERIF_SEED", None); env.pop("VERIF_TIER", None)
         rc, out, to = run([os.path.join(self.root, "check"), self.pid, "--tier", "quick"], cwd=self.root, env=env, timeout=timeout)
         res = {"check_exit": rc, "check_wall_s": round(time.time() - t0, 1), "timed_out": to}
@@ -435,6 +439,79 @@ def retest(a):
     return 0
 
 
+def recheck(a):
+    """--recheck [--jobs N] [--detected-sample K]: run ./check again (current check, current corpus) on every mutant recorded as
+    survived and on a deterministic sample of K mutants recorded as detected; the new record replaces the old one
+    (previous_outcome is kept). Used after ./check itself changed."""
+    pid = a.pid
+    meta, recs = load_results()[pid]
+    surv = [r for r in recs if r["outcome"] in ("survived", "tool-error", "timeout-inconclusive") and r.get("check_version") != a.check_version]
+    det = sorted((r for r in recs if r["outcome"] in ("detected", "detected-by-hang") and r.get("check_version") != a.check_version
+                  and not r.get("previous_outcome")), key=lambda r: r["key"])
+    random.Random("recheck/%s/%s" % (a.seed, pid)).shuffle(det)
+    already = sum(1 for r in recs if r.get("check_version") == a.check_version and r.get("previous_outcome") in ("detected", "detected-by-hang"))
+    det = det[:max(0, a.detected_sample - already)]
+    todo = surv + det
+    print("%s: recheck %d survivors + %d of the detected" % (pid, len(surv), len(det)), flush=True)
+    if not todo:
+        return 0
+    exe = build_mutgen()
+    workers = [Worker(pid, 60 + k) for k in range(a.jobs)]
+    lock = threading.Lock()
+    state = {"next": 0}
+    fout = open(os.path.join(OUT, pid + ".jsonl"), "a")
+    try:
+        ths = [threading.Thread(target=w.setup) for w in workers]
+        [t.start() for t in ths]; [t.join() for t in ths]
+        b = workers[0].check(max(a.timeout, 1800))
+        print("baseline: check exit=%s wall=%ss %s" % (b["check_exit"], b["check_wall_s"], b["summary"]), flush=True)
+        if b["check_exit"] != 0:
+            raise SystemExit("the check does not pass on the unchanged tree: %s" % json.dumps(b)[:1500])
+        tmo = int(max(a.timeout, 3 * b["check_wall_s"]))
+        with lock:
+            fout.write(json.dumps({"meta": True, "recheck": True, "pid": pid, "check_version": a.check_version, "repo_head": meta["repo_head"], "files": meta["files"],
+                                   "sites": meta["sites"], "mutants": meta["mutants"], "seed": meta.get("seed"), "by_class": meta.get("by_class"),
+                                   "baseline_check_wall_s": b["check_wall_s"], "timeout_s": tmo, "detected_sample": a.detected_sample}) + "\n"); fout.flush()
+
+        def work(w):
+            while True:
+                with lock:
+                    if state["next"] >= len(todo):
+                        return
+                    r = todo[state["next"]]; state["next"] += 1
+                rec = {k: r[k] for k in ("key", "pid", "file", "id", "op", "desc", "line", "col", "func", "orig_line", "mut_line") if k in r}
+                rec["previous_outcome"] = r["outcome"]; rec["check_version"] = a.check_version
+                if "suite_s" in r:
+                    rec["suite_s"] = r["suite_s"]
+                try:
+                    w.reset()
+                    rc, txt, _ = run([exe, "-file", os.path.join(REPO, r["file"]), "-apply", str(r["id"])]); assert rc == 0, txt
+                    open(os.path.join(w.wt, r["file"]), "w").write(txt)
+                    res = w.check(tmo)
+                    rec.update(res)
+                    if res["timed_out"]:
+                        rec["outcome"] = "detected-by-hang"
+                    elif res["check_exit"] == 1 and res["violation"]:
+                        rec["outcome"] = "detected"
+                    elif res["check_exit"] == 0:
+                        rec["outcome"] = "survived"
+                    else:
+                        rec["outcome"] = "tool-error"
+                except Exception as e:
+                    rec["outcome"] = "sweep-error"; rec["exception"] = repr(e)[:400]
+                with lock:
+                    fout.write(json.dumps(rec) + "\n"); fout.flush()
+                print("[%s w%d] %s:%d %s %s: %s -> %s (%ss)" % (pid, w.k, r["file"], r["line"], r["op"], r["desc"], r["outcome"], rec["outcome"],
+                                                              rec.get("check_wall_s")), flush=True)
+        ths = [threading.Thread(target=work, args=(w,)) for w in workers]
+        [t.start() for t in ths]; [t.join() for t in ths]
+    finally:
+        for w in workers:
+            w.teardown()
+        fout.close()
+    return 0
+
+
 def esc(s):
     return (s or "").replace("|", "\\|").replace("\n", " ")
 
@@ -473,19 +550,25 @@ def report():
     L.append("| property | files | sites | mutants generated | tested | stillborn | killed by the suite | survived the suite | detected by ./check | by hang | tool error / inconclusive | SURVIVORS | of those: equivalent / out-of-domain / GAP (closed by corpus) / untriaged |")
     L.append("|---|---|---|---|---|---|---|---|---|---|---|---|---|")
     all_surv = []
+
+    def tclass(pid, r):
+        return triage.get(pid + ":" + r["key"], {}).get("class", "untriaged")
+
+    def is_closed(pid, r):
+        return r["outcome"].startswith("detected") or retests.get(pid + ":" + r["key"], "").startswith("detected")
     for pid in sorted(res):
         meta, recs = res[pid]
         c = collections.Counter(r["outcome"] for r in recs)
-        surv = [r for r in recs if r["outcome"] == "survived"]
+        # a survivor of the sweep: survived the check, or was triaged as a GAP (it survived until its corpus line was added)
+        surv = [r for r in recs if r["outcome"] == "survived" or (tclass(pid, r) == "GAP" and r["outcome"] not in ("stillborn", "suite-killed"))]
+        gapdet = sum(1 for r in surv if r["outcome"] == "detected")
+        gaphang = sum(1 for r in surv if r["outcome"] == "detected-by-hang")
         ss = len(recs) - c["stillborn"] - c["suite-killed"]
-        tc = collections.Counter()
-        for r in surv:
-            t = triage.get(pid + ":" + r["key"], {})
-            tc[t.get("class", "untriaged")] += 1
-        closed = sum(1 for r in surv if retests.get(pid + ":" + r["key"], "").startswith("detected"))
+        tc = collections.Counter(tclass(pid, r) for r in surv)
+        closed = sum(1 for r in surv if tclass(pid, r) == "GAP" and is_closed(pid, r))
         L.append("| %s | %d | %d | %d | %d | %d | %d | %d | %d | %d | %d | **%d** | %d / %d / %d (%d) / %d |" % (
             pid, len(meta["files"]) if meta else 0, sum(meta["sites"].values()) if meta else 0, meta["mutants"] if meta else 0, len(recs),
-            c["stillborn"], c["suite-killed"], ss, c["detected"], c["detected-by-hang"],
+            c["stillborn"], c["suite-killed"], ss, c["detected"] - gapdet, c["detected-by-hang"] - gaphang,
             c["tool-error"] + c["timeout-inconclusive"] + c["sweep-error"], len(surv),
             tc["EQUIVALENT"], tc["OUT-OF-DOMAIN"], tc["GAP"], closed, tc["untriaged"]))
         all_surv.append((pid, surv))
@@ -496,11 +579,48 @@ def report():
         for r in res[pid][1]:
             if r["outcome"] in ("detected", "detected-by-hang", "survived"):
                 oc[r["op"]][1] += 1
-                if r["outcome"] != "survived":
+                if r["outcome"] != "survived" and tclass(pid, r) != "GAP":
                     oc[r["op"]][0] += 1
     L.append("| " + " | ".join(c for c in CLASSES if c in oc) + " |")
     L.append("|" + "---|" * len([c for c in CLASSES if c in oc]))
     L.append("| " + " | ".join("%d/%d" % tuple(oc[c]) for c in CLASSES if c in oc) + " |\n")
+    # ---- the re-run with the changed check
+    rr = []
+    for pid in sorted(res):
+        for r in res[pid][1]:
+            if r.get("previous_outcome"):
+                rr.append((pid, r))
+    if rr:
+        L.append("## Re-run with the changed ./check\n")
+        L.append("The first complete pass used the check as of b-sweep's first merge of main; main's 7491ec0 then changed `./check` (per-tree work "
+                 "directories, corpus replayed in a process of its own, fresh-process sample, pair re-run, escalation). Every mutant recorded as a "
+                 "survivor and a deterministic sample of those recorded as detected were run again with the new check (`--recheck`, "
+                 "`VERIF_NO_ESCALATE=1`, current corpus); the tables above show the NEW outcome. (The first pass already ran every worker from a private "
+                 "copy of the checkout, so its verdicts were not affected by the shared build/<PID>/ directory; the re-run confirms that.)\n")
+        L.append("| property | survivors re-run | still survive | now detected (GAP closed by its corpus line) | now detected (other) | detected re-run (sample) | still detected | now survive |")
+        L.append("|---|---|---|---|---|---|---|---|")
+        flips = []
+        for pid in sorted(res):
+            mine = [r for p_, r in rr if p_ == pid]
+            if not mine:
+                continue
+            ps = [r for r in mine if r["previous_outcome"] in ("survived", "tool-error", "timeout-inconclusive")]
+            pd = [r for r in mine if r["previous_outcome"] in ("detected", "detected-by-hang")]
+            still = sum(1 for r in ps if r["outcome"] == "survived")
+            gapc = sum(1 for r in ps if r["outcome"].startswith("detected") and tclass(pid, r) == "GAP")
+            oth = [r for r in ps if r["outcome"] != "survived" and not (r["outcome"].startswith("detected") and tclass(pid, r) == "GAP")]
+            lost = [r for r in pd if not r["outcome"].startswith("detected")]
+            L.append("| %s | %d | %d | %d | %d | %d | %d | %d |" % (pid, len(ps), still, gapc, len(oth), len(pd), len(pd) - len(lost), len(lost)))
+            flips += [(pid, r) for r in oth + lost]
+        L.append("")
+        if flips:
+            L.append("Mutants whose verdict changed (other than GAPs closed by their corpus line):\n")
+            L.append("| property | file:line | operator | mutated line | before | now | replay kind | earlier triage |")
+            L.append("|---|---|---|---|---|---|---|---|")
+            for pid, r in flips:
+                L.append("| %s | %s:%d | %s: %s | `%s` | %s | %s | %s | %s |" % (pid, r["file"], r["line"], r["op"], esc(r["desc"]), esc(r["mut_line"]), r["previous_outcome"],
+                                                                          r["outcome"], (r.get("replay") or {}).get("kind", ""), tclass(pid, r)))
+            L.append("")
     L.append("## Survivors (passed the package's tests AND `./check PID --tier quick`)\n")
     for pid, surv in all_surv:
         if not surv:
@@ -510,7 +630,7 @@ def report():
         L.append("|---|---|---|---|---|---|---|")
         for r in sorted(surv, key=lambda r: (r["file"], r["line"], r["col"], r["desc"])):
             t = triage.get(pid + ":" + r["key"], {})
-            cls = t.get("class", "untriaged") + (" (closed by corpus: now detected)" if retests.get(pid + ":" + r["key"], "").startswith("detected") else "")
+            cls = t.get("class", "untriaged") + (" (closed by corpus: now detected)" if t.get("class") == "GAP" and is_closed(pid, r) else "")
             L.append("| %s:%d | %s | %s: %s | `%s` | `%s` | %s | %s |" % (r["file"], r["line"], esc(r["func"]), r["op"], esc(r["desc"]),
                                                                       esc(r["orig_line"]), esc(r["mut_line"]), cls, esc(t.get("why", ""))))
         L.append("")
@@ -544,6 +664,9 @@ def main():
     ap.add_argument("--fresh", action="store_true")
     ap.add_argument("--only-file")
     ap.add_argument("--report", action="store_true")
+    ap.add_argument("--recheck", action="store_true", help="re-run ./check on all survivors and a sample of the detected mutants")
+    ap.add_argument("--detected-sample", type=int, default=12)
+    ap.add_argument("--check-version", default="v2")
     ap.add_argument("--baseline", action="store_true", help="run ./check PID on an unchanged scratch tree with the current corpus")
     ap.add_argument("--probe", help="mutant selector 'file:line:desc-substring'")
     ap.add_argument("--case", action="append", default=[], help="op<TAB>args (literal \\t accepted)")
@@ -570,6 +693,9 @@ def main():
         json.dump(t, open(tp, "w"), indent=1, sort_keys=True)
         print("ok", a.pid, r["key"], cls)
         return 0
+    if a.recheck:
+        a.jobs = max(1, min(a.jobs, 6))
+        return recheck(a)
     if a.baseline:
         # ./check PID on an UNCHANGED scratch tree with the current corpus (must exit 0): run after corpus lines were added
         w = Worker(a.pid, 80 + (os.getpid() % 9))
